@@ -234,6 +234,8 @@ func ghostSort(goTyp string) Sort {
 		return SInt
 	case "bool":
 		return SBool
+	case "real":
+		return SReal
 	}
 	if strings.HasPrefix(goTyp, "ref[") {
 		return SInt
@@ -261,6 +263,8 @@ func ghostType(goTyp string) types.Type {
 		return tString
 	case "bool":
 		return tBool
+	case "real":
+		return types.Typ[types.Float64]
 	}
 	if strings.HasPrefix(goTyp, "set[") {
 		return &setType{K: tInt}
@@ -497,6 +501,9 @@ func scalarEq(a, b Val) (string, bool) {
 				return sEq(x.Base, "0"), true
 			}
 		case SliceV:
+			if (x.Base == "0" && x.Len == "0") || (y.Base == "0" && y.Len == "0") {
+				return sEq(x.Base, y.Base), true // comparison with the nil slice
+			}
 			return sAnd(sEq(x.Base, y.Base), sEq(x.Off, y.Off), sEq(x.Len, y.Len)), true
 		}
 	case FuncV:
@@ -522,11 +529,19 @@ func scalarEq(a, b Val) (string, bool) {
 func (env *SpecEnv) evalBin(x *EBin) (Val, types.Type) {
 	switch x.Op {
 	case "&&":
-		return boolv(sAnd(env.evalBool(x.L), env.evalBool(x.R))), tBool
+		l := env.evalBool(x.L)
+		if l == "false" {
+			return boolv("false"), tBool
+		}
+		return boolv(sAnd(l, env.evalBool(x.R))), tBool
 	case "||":
 		return boolv(sOr(env.evalBool(x.L), env.evalBool(x.R))), tBool
 	case "==>":
-		return boolv(sImp(env.evalBool(x.L), env.evalBool(x.R))), tBool
+		l := env.evalBool(x.L)
+		if l == "false" {
+			return boolv("true"), tBool // lazily: the consequent may mention names that are not defined here
+		}
+		return boolv(sImp(l, env.evalBool(x.R))), tBool
 	case "==", "!=":
 		a, _ := env.eval(x.L)
 		b, _ := env.eval(x.R)
@@ -547,6 +562,13 @@ func (env *SpecEnv) evalBin(x *EBin) (Val, types.Type) {
 		bs, ok2 := b.(Sc)
 		if !ok1 || !ok2 {
 			sfail("arithmetic on non-scalars in %s", x)
+		}
+		if as.S == SReal && bs.S == SInt {
+			bs = Sc{"(to_real " + bs.T + ")", SReal}
+		}
+		if bs.S == SReal && as.S == SInt {
+			as = Sc{"(to_real " + as.T + ")", SReal}
+			ta = types.Typ[types.Float64]
 		}
 		return Sc{"(" + x.Op + " " + as.T + " " + bs.T + ")", as.S}, ta
 	case "/":
@@ -752,6 +774,21 @@ func (env *SpecEnv) evalCall(c *ECall) (Val, types.Type) {
 			sfail("keys() needs a map")
 		}
 		return SetV{T: st.mapDom(m, asSc(v).T, env.snap()), K: vc.leaves(m.Key())[0].Sort}, &setType{K: m.Key()}
+	case "defined":
+		// defined(x): is the local name x bound on this path? (statically decided)
+		id, ok := c.Args[0].(*EIdent)
+		if !ok {
+			sfail("defined() needs a name")
+		}
+		if _, ok := env.bound[id.Name]; ok {
+			return boolv("true"), tBool
+		}
+		if env.lookup != nil {
+			if _, ok := env.lookup(id.Name); ok {
+				return boolv("true"), tBool
+			}
+		}
+		return boolv("false"), tBool
 	case "samemap":
 		// samemap(m): the map m has the same keys and values as in the old state
 		mv, t := env.eval(c.Args[0])
